@@ -138,7 +138,10 @@ def yields_iff_present(ctx, g, gix):
         ctx.inst("R11.1", "get_all_exprs:yields-%s-iff-present" % name, bad is None, fs[0][1].get("sp"),
                  "get_all_exprs yields %s under a condition that is not just its own presence (e.g. when %s): an expression that is skipped is never transformed and update_expressions then erases or keeps a stale reference" % (name, bad),
                  sample={"field": name, "sites": len(fs)})
-    ctx.floor("R11.1", "element-wise yields of get_all_exprs with a presence condition", len(sites), 3)
+    if sites:
+        ctx.floor("R11.1", "element-wise yields of get_all_exprs with a presence condition", len(sites), 3)
+    else:
+        ctx.not_analysed.append("R11.1: get_all_exprs yields no element by an explicit push (iterator pipeline): the presence conditions are those of the adaptors")
 
 
 def _fmt_desc(d):
